@@ -297,7 +297,9 @@ class BaseMixin:
                 return s.term == self.ct.opt_some(s.ty.elem, tc)
             if isinstance(s.ty, TVal):
                 return self.val_equal(s, c)
-            if isinstance(s.ty, (TInt, TReal)) and isinstance(c, (int, float)) :
+            if isinstance(s.ty, TInt) and isinstance(c, int) and not isinstance(c, bool):
+                return s.term == z3.IntVal(c)
+            if isinstance(s.ty, (TInt, TReal)) and isinstance(c, (int, float)):
                 return self.num_term(s) == self.num_term(c)
             try:
                 tc = self.term(c, s.ty)
